@@ -486,6 +486,22 @@ pub fn c03(tier: &str) -> i32 {
     pe.events = true;
     pe.toggles = false;
     plans.push(plan("modify via events, clock {0,+1} disciplined", pe, 3, if t { 4 } else { 3 }));
+    // separate create / place with every request also aimed at the still-unplaced order (a
+    // re-priced order must trade at the price its record shows)
+    let mut cp = Profile::core("ledger-create-place", 1, 10);
+    cp.create_place = true;
+    cp.redundant_place = true;
+    cp.modify = true;
+    cp.modify_prices = true;
+    cp.modify_vols = vec![3];
+    cp.limit_vols = vec![1];
+    cp.market_vols = vec![2];
+    plans.push(plan("separate create/place, modifies aimed at unplaced orders too", cp.clone(), 3, if t { 6 } else { 5 }));
+    cp.name = "ledger-create-place-events".into();
+    cp.events = true;
+    cp.toggles = true;
+    cp.prices = vec![10, 11];
+    plans.push(plan("same through process_event, with toggles", cp, 3, if t { 5 } else { 4 }));
     with_bases(&mut plans, "ledger", &p, 3, if t { 4 } else { 2 });
     with_big_bases(&mut plans, "ledger", &p, 3, if t { 3 } else { 2 });
     let mut mg = Profile::magnitude("ledger-magnitudes");
@@ -637,7 +653,7 @@ pub fn c06(tier: &str) -> i32 {
     p2.limit_vols = vec![2];
     p2.market_vols = vec![1];
     p2.modify_vols = vec![1, 2, 3];
-    plans.push(plan("reduced alphabet, deeper", p2, 3, if t { 6 } else { 5 }));
+    plans.push(plan("reduced alphabet, deeper", p2.clone(), 3, if t { 6 } else { 5 }));
     let mut p3 = p.clone();
     p3.name = "modify-tick3-events".into();
     p3.tick = 3;
@@ -645,6 +661,19 @@ pub fn c06(tier: &str) -> i32 {
     p3.events = true;
     p3.modify_vols = vec![1, 3];
     plans.push(plan("tick 3, through process_event", p3, 3, if t { 4 } else { 3 }));
+    // "as if newly arrived" while nothing can trade: a book constructed with trading off (a
+    // re-priced order rests at its new price, also through the opposite touch), and the flag
+    // switched mid-history
+    let mut po = p2.clone();
+    po.name = "modify-trading-off".into();
+    po.start_trading = false;
+    po.prices = vec![10, 11, 12];
+    po.modify_vols = vec![1, 3];
+    plans.push(plan("book constructed with trading off: every modify shape", po.clone(), 3, if t { 5 } else { 4 }));
+    po.name = "modify-toggles".into();
+    po.prices = vec![10, 11];
+    po.toggles = true;
+    plans.push(plan("trading off at start, toggles as operations", po, 3, if t { 6 } else { 5 }));
     with_bases(&mut plans, "modify", &p, 3, if t { 4 } else { 2 });
     with_big_bases(&mut plans, "modify", &p, 3, 2);
     let mut mg = Profile::magnitude("modify-magnitudes");
@@ -664,7 +693,7 @@ pub fn c06(tier: &str) -> i32 {
     crate::absx::run_closure(
         &mut out,
         &mon,
-        &crate::absx::ClosureCfg { label: "C06: every modify shape on every queue rank", max_rest: 3, max_vol: if t { 3 } else { 2 }, modify: true, toggles: false, create: false, redundant: false, ties: false, prices: 3, reload_depth: 0 },
+        &crate::absx::ClosureCfg { label: "C06: every modify shape on every queue rank, trading flag in the key", max_rest: 3, max_vol: if t { 3 } else { 2 }, modify: true, toggles: true, create: false, redundant: false, ties: false, prices: 3, reload_depth: 0 },
         t,
     );
     out.assumptions = vec!["reference model encodes the statement: only (no price, smaller volume) keeps the seat".into()];
@@ -673,7 +702,9 @@ pub fn c06(tier: &str) -> i32 {
 
 pub fn c12(tier: &str) -> i32 {
     let mut out = Outcome::new("C12", tier, "model_checking");
-    let mon = Monitors { grid: true, ..Default::default() };
+    // (views: the published per-level data must account for the resting volume at the levels
+    // the orders' own prices say - the last clause of the property)
+    let mon = Monitors { grid: true, views: true, ..Default::default() };
     let t = thorough(tier);
     let mut plans = Vec::new();
     for tick in [2u32, 3, 5, 10] {
@@ -689,12 +720,16 @@ pub fn c12(tier: &str) -> i32 {
         if u32::MAX % tick != 0 {
             // the largest representable price is off the grid for this tick size
             p.offgrid_prices.push(u32::MAX);
+            // and so is the complement 2^32-1-q of every grid price q (the form in which bid
+            // prices are held inside the priority index)
+            let comps: Vec<u32> = p.prices.iter().map(|q| u32::MAX - q).collect();
+            p.offgrid_prices.extend(comps);
         }
         plans.push(plan(
             &format!("tick {}: on/off-grid create, create_and_place, modify", tick),
             p,
             4,
-            if t { 4 } else { 3 },
+            if t { 5 } else { 4 },
         ));
     }
     // the two ends of the price axis are grid prices too (0 always, 2^32-1 when the tick divides it)
@@ -709,7 +744,7 @@ pub fn c12(tier: &str) -> i32 {
         if tick > 1 {
             p.offgrid_prices = vec![1, u32::MAX - 1];
         }
-        plans.push(plan(&format!("tick {}: limit prices 0 and 2^32-1 (on the grid)", tick), p, 4, if t { 4 } else { 3 }));
+        plans.push(plan(&format!("tick {}: limit prices 0 and 2^32-1 (on the grid)", tick), p, 4, if t { 5 } else { 4 }));
     }
     let mut p = Profile::core("grid-tick2-events", 2, 2);
     p.modify = true;
@@ -719,7 +754,7 @@ pub fn c12(tier: &str) -> i32 {
     p.offgrid_prices = vec![5];
     p.limit_vols = vec![1];
     p.market_vols = vec![2];
-    plans.push(plan("tick 2: event route + separate create/place", p, 3, if t { 4 } else { 3 }));
+    plans.push(plan("tick 2: event route + separate create/place", p, 3, if t { 5 } else { 4 }));
     execute(&mut out, plans, &mon, &["op:offgrid-create", "op:modify", "modify-requeue"], if t { 3000 } else { 50 });
     crate::envprops::c12_env_part(&mut out, t);
     out.finish()
